@@ -614,6 +614,9 @@ def run(ctx: Ctx) -> None:
     drive_random(ctx, loop)
     ctx.log(f"random done: traces={ctx.traces}")
     ctx.evaluations = ctx.traces
+    # report anything that is not one of the named deviations first
+    named = ("DecodeAfterOverrideTakeover", "DataAfterCloseOnWire", "model:DecodeOK_OverrideTakeover", "model:NoDataAfterCloseOnWire")
+    ctx.violations.sort(key=lambda v: v.clause in named)
     loop.uninstall()
 
 
